@@ -411,6 +411,22 @@ pub fn run(ctx: &Ctx) -> (Acc, Report) {
             combos.push(vec![i, j]);
         }
     }
+    if ctx.tier == Tier::Thorough {
+        // bound 3 over the axes that are not single-byte file contents
+        let group = |n: &str| if n.starts_with("file=") { 1 } else if n.starts_with("policy=") { 2 } else if n.starts_with("boundary") { 3 } else { 0 };
+        let idx: Vec<usize> = (0..n_axes).filter(|i| !ax[*i].0.starts_with("file=byte")).collect();
+        for (x, &i) in idx.iter().enumerate() {
+            for (y, &j) in idx.iter().enumerate().skip(x + 1) {
+                for &k in idx.iter().skip(y + 1) {
+                    let g = [group(&ax[i].0), group(&ax[j].0), group(&ax[k].0)];
+                    if g.iter().any(|a| *a != 0 && g.iter().filter(|b| *b == a).count() > 1) {
+                        continue;
+                    }
+                    combos.push(vec![i, j, k]);
+                }
+            }
+        }
+    }
     let mut variants: Vec<Variant> = Vec::new();
     for c in &combos {
         let mut f = base_form();
@@ -539,7 +555,7 @@ pub fn run(ctx: &Ctx) -> (Acc, Report) {
     });
     let rep = Report {
         level: "exploration",
-        rule: format!("{n_variants} forms: a policy-signed base form with 0, 1 and 2 simultaneous deviations over {n_axes} axes (field-name case, x-amz-meta fields, header-equivalent fields, duplicate/unknown/after-file fields, keys, 3 boundaries, file contents incl. every single byte value, CR/LF runs and proper prefixes of the delimiter, 19 policies: expiry on both sides of the owned clock, eq/starts-with/bucket/content-length-range/meta conditions satisfied and violated, malformed documents) plus every single-character mutation, removal and emptying of policy, signature, credential, date and algorithm. Oracle: reference form verifier + field-wise comparison of the PutObjectInput at the backend."),
+        rule: format!("{n_variants} forms: a policy-signed base form with 0, 1 and 2 simultaneous deviations (thorough: 3 over the axes that are not single-byte file contents) over {n_axes} axes (field-name case, x-amz-meta fields, header-equivalent fields, duplicate/unknown/after-file fields, keys, 3 boundaries, file contents incl. every single byte value, CR/LF runs and proper prefixes of the delimiter, 19 policies: expiry on both sides of the owned clock, eq/starts-with/bucket/content-length-range/meta conditions satisfied and violated, malformed documents) plus every single-character mutation, removal and emptying of policy, signature, credential, date and algorithm. Oracle: reference form verifier + field-wise comparison of the PutObjectInput at the backend."),
         exhaustive: true,
         extra: json!({"forms": n_variants, "axes": n_axes, "transport_fault_cases": n_faults, "transport_fault_rule": "3 signed, compliant forms (base; 300-byte file with CR/LF; a field after the file) x body ends / I/O error / two frames then I/O error after every byte offset: whatever reaches the backend as an object write is the complete file"}),
         assumptions: vec![
